@@ -10,6 +10,7 @@ import WD.Proofs.Pipeline.Theorems
 import WD.Proofs.Pipeline.FlatSpec
 import WD.Proofs.Pipeline.Sound
 import WD.Proofs.Pipeline.BurstFiles
+import WD.Proofs.Pipeline.BurstGrow
 namespace WD.C03
 open WD WD.Pipe
 
@@ -106,5 +107,22 @@ theorem contract_refined_file_burst_partial (fs0 : FS) (hwf : fs0.WF) (full : Bo
   rw [run_full, h5] at this
   simp only
   rw [this]
+
+
+/-- a NESTED BURST announces every new entry exactly once, with the right kind: after any drained history, for `mkdir`s
+    and file creations at any depth read as one batch, the created events of the delivered stream name pairwise
+    different paths, and (path, kind) is announced iff an entry of that path and kind exists in the tree now and did not
+    before the burst - nothing is announced twice (by the kernel AND by the walk), nothing that does not exist, nothing
+    is left out -/
+theorem created_once_growth_burst_partial (fs0 : FS) (hwf : fs0.WF) (full : Bool) (pre burst : List Op)
+    (hv : allValid (Sys.start fs0 true full) pre = true) (hroot : Op.rmdir ["W"] ∉ pre)
+    (hb : allGrow ((Sys.start fs0 true full).run pre).1.fs burst = true) :
+    ((createdOf (((Sys.start fs0 true full).run pre).1.burst burst).2).map (·.1)).Nodup ∧
+    ∀ x, x ∈ createdOf (((Sys.start fs0 true full).run pre).1.burst burst).2 ↔
+      ∃ e ∈ (((Sys.start fs0 true full).run pre).1.burst burst).1.fs.ents,
+        e ∉ ((Sys.start fs0 true full).run pre).1.fs.ents ∧ isUnder ["W"] e.path = true ∧ x = (e.path, e.isDir) := by
+  obtain ⟨inv, hs, hc⟩ := after_history fs0 hwf full pre hv hroot
+  obtain ⟨h1, _, _, _, _, h6, h7⟩ := burst_grow _ burst inv hs hc hb
+  rw [h1]; exact ⟨h6, h7⟩
 
 end WD.C03
